@@ -584,13 +584,57 @@ func c06JWT(c *Ctx) {
 		n += sites
 		c.Check(ok && sites > 0, rule, "jwt-decode", fn, "public-keys-only", "the verification key handed to the parser is an rsa.PublicKey / ecdsa.PublicKey value or OpaqueSigner.Public().Key", why, nil)
 	}
-	if n < 4 {
-		c.RoleUnmatched(rule, "jwt-decode", fmt.Sprintf("at least 4 verification-key arguments; found %d", n))
+	if n < 2 {
+		c.RoleUnmatched(rule, "jwt-decode", fmt.Sprintf("at least 2 verification-key arguments; found %d", n))
 	}
 }
 
 // keyArgOK returns "" if the value is a public-key value.
-func keyArgOK(v ssa.Value) string {
+func keyArgOK(v ssa.Value) string { return keyArgOKd(v, 3) }
+
+func keyArgOKd(v ssa.Value, depth int) string {
+	switch x := v.(type) {
+	case *ssa.Const:
+		if x.IsNil() {
+			return "" // no key: the parser has nothing to verify with and fails
+		}
+	case *ssa.Phi:
+		for _, e := range x.Edges {
+			if d := keyArgOKd(e, depth); d != "" {
+				return d
+			}
+		}
+		return ""
+	case *ssa.Extract:
+		// a result of a key-selection helper of the module: every value it returns in that position
+		if call, ok := x.Tuple.(*ssa.Call); ok && depth > 0 {
+			if sf := call.Common().StaticCallee(); sf != nil && len(sf.Blocks) > 0 && isSubjectPkg(fnPkgPath(sf)) {
+				for _, b := range sf.Blocks {
+					for _, ins := range b.Instrs {
+						if ret, ok := ins.(*ssa.Return); ok && x.Index < len(ret.Results) {
+							if d := keyArgOKd(ret.Results[x.Index], depth-1); d != "" {
+								return d
+							}
+						}
+					}
+				}
+				return ""
+			}
+		}
+	case *ssa.Call:
+		if sf := x.Common().StaticCallee(); sf != nil && len(sf.Blocks) > 0 && isSubjectPkg(fnPkgPath(sf)) && depth > 0 && sf.Signature.Results().Len() == 1 {
+			for _, b := range sf.Blocks {
+				for _, ins := range b.Instrs {
+					if ret, ok := ins.(*ssa.Return); ok && len(ret.Results) == 1 {
+						if d := keyArgOKd(ret.Results[0], depth-1); d != "" {
+							return d
+						}
+					}
+				}
+			}
+			return ""
+		}
+	}
 	switch x := v.(type) {
 	case *ssa.MakeInterface:
 		t := typeShort(x.X.Type())
